@@ -47,6 +47,27 @@ def _a_function():
 # but is not iterable itself), an instance whose class disables iteration, a
 # function, a type
 NON_ITERABLES = [5, 2.5, None, list, _NoIter(), _a_function, dict, object]
+RAW_ITERABLES = ["list", "tuple", "str", "range", "gen", "dict", "bytes"]
+
+
+def make_raw(kind, n):
+  if kind == "str":
+    items = list("abcde"[:n])
+    return "abcde"[:n], items
+  if kind == "bytes":
+    return bytes(range(65, 65 + n)), list(range(65, 65 + n))
+  items = list(range(300, 300 + n))
+  if kind == "list":
+    return list(items), items
+  if kind == "tuple":
+    return tuple(items), items
+  if kind == "range":
+    return range(300, 300 + n), items
+  if kind == "dict":
+    return dict((v, None) for v in items), items
+  return (v for v in items), items
+
+
 # items a sentinel-based implementation would trip over
 ODD_VALUES = [3, None, 0, False, "", (), None, 7]
 CTORS = {"tuple": tuple, "set": set, "sum": sum,
@@ -146,7 +167,10 @@ class C03(Property):
         roots.append({"kind": kind})
     ops = []
     n = W.span("nops", 1, 30 if W.chance("long", 1, 3) else 10)
-    odd = any(r["kind"] == "odd" for r in roots)
+    # hubs made from a str (items are letters): as with the "odd" roots, no
+    # arithmetic map / predicate is applied in such a history
+    has_str = W.chance("str-hub", 1, 8)
+    odd = any(r["kind"] == "odd" for r in roots) or has_str
     for _ in range(n):
       op = W.weighted("op", [(6, "take"), (4, "peek"), (3, "skip"),
                              (3, "limit"), (2, "append_list"),
@@ -154,7 +178,8 @@ class C03(Property):
                              (2, "map"), (2, "filter"),
                              (5, "copy"), (2, "tee"), (3, "thub"),
                              (4, "hub_use"), (2, "next_it"), (2, "for"),
-                             (1, "thub_scalar"), (1, "rewrap")])
+                             (1, "thub_scalar"), (1, "rewrap"),
+                             (1, "thub_raw")])
       if odd and op == "filter":
         # items that are None / falsy / not numbers: only filter(None) and
         # filter(bool) make sense on them
@@ -185,6 +210,12 @@ class C03(Property):
         ops.append([op, W.choose("how", 2)])
       elif op == "for":
         ops.append([op, W.choose("k", 5)])
+      elif op == "thub_raw":
+        kinds = [i for i, k in enumerate(RAW_ITERABLES)
+                 if has_str or k != "str"]
+        ops.append([op, 2 if has_str and W.chance("str", 1, 2)
+                    else W.pick("rawkind", kinds),
+                    W.choose("rawlen", 5), W.span("n", 1, 3)])
       elif op == "thub_scalar":
         ops.append([op, W.choose("obj", len(NON_ITERABLES)),
                     W.choose("n", 3)])
@@ -522,6 +553,19 @@ class _Ctx(object):
         raise _Mismatch("thub-scalar", "thub(%r, %d) gave %r" % (obj, op[2],
                                                                  got))
       self.events.append("thub_scalar #%d" % (op[1] % len(NON_ITERABLES)))
+      return
+    if name == "thub_raw":
+      # a hub made straight from an iterable that is not a Stream: list,
+      # tuple, str, range, generator, dict, bytes
+      rk = RAW_ITERABLES[op[1] % len(RAW_ITERABLES)]
+      raw, items = make_raw(rk, op[2])
+      got = self.call(name, lambda: self.p.thub(raw, op[3]))
+      if got[0] != "ok" or not isinstance(got[1], self.p.StreamTeeHub):
+        raise _Mismatch("thub:return", "thub(<%s of %d items>, %d) gave %r"
+                        % (rk, len(items), op[3], got))
+      nh = self.add("hub", got[1], HandleModel(ListSeq(items)), uses=op[3])
+      self.events.append("thub(<%s %d>, %d) -> h%d" % (rk, len(items), op[3],
+                                                       nh.hid))
       return
     if name == "hub_use":
       h = self.pick("hub")
